@@ -11,6 +11,7 @@ import (
 
 	"github.com/parquet-go/parquet-go"
 	"github.com/parquet-go/parquet-go/compress/snappy"
+	"github.com/parquet-go/parquet-go/deprecated"
 
 	"verif/engine"
 )
@@ -33,6 +34,18 @@ type ARow struct {
 	D  string `parquet:",dict"`
 	// a fixed-size column reconstructed into a Go slice
 	F []byte `parquet:",decimal(2:20)"`
+	// a 12-byte value type (several pages per column chunk, like the others)
+	T deprecated.Int96
+	// JSON columns: the Go value is produced by a decoder of its own
+	J  aJSON   `parquet:",json"`
+	JL []int64 `parquet:",json"`
+}
+
+type aJSON struct {
+	Name string            `json:"name"`
+	Tags []string          `json:"tags"`
+	Attr map[string]string `json:"attr"`
+	Next *aJSON            `json:"next,omitempty"`
 }
 
 func c16Rows(base, n int) []ARow {
@@ -41,6 +54,9 @@ func c16Rows(base, n int) []ARow {
 		k := base + i
 		r := ARow{ID: int64(k), S: fmt.Sprintf("string-%d-%s", k, strings.Repeat("s", k%7)), B: []byte(fmt.Sprintf("bytes-%d", k)), D: fmt.Sprintf("d%d", k%3)}
 		r.F = []byte(fmt.Sprintf("%09d", k)) // FIXED_LEN_BYTE_ARRAY(9)
+		r.T = deprecated.Int96{uint32(k), uint32(k * 7), uint32(k + 1000)}
+		r.J = aJSON{Name: fmt.Sprintf("n%d", k), Tags: []string{fmt.Sprintf("t%d", k), "x"}, Attr: map[string]string{"k": fmt.Sprint(k)}, Next: &aJSON{Name: fmt.Sprintf("next%d", k)}}
+		r.JL = []int64{int64(k), int64(k + 1), int64(k + 2)}
 		for j := range r.U {
 			r.U[j] = byte(k + j)
 		}
@@ -106,6 +122,20 @@ func canonRows[T any](rows []T) []string {
 		out[i] = canon(reflect.ValueOf(rows[i]))
 	}
 	return out
+}
+
+// c16RowOf shreds one row through the typed path (Schema.Deconstruct does not
+// accept struct values for JSON columns).
+func c16RowOf(r ARow) parquet.Row {
+	b := parquet.NewGenericBuffer[ARow]()
+	b.Write([]ARow{r})
+	rows := b.Rows()
+	defer rows.Close()
+	buf := make([]parquet.Row, 1)
+	if n, _ := rows.ReadRows(buf); n != 1 {
+		panic("c16RowOf: no row")
+	}
+	return buf[0].Clone()
 }
 
 type c16FileCfg struct {
@@ -413,12 +443,12 @@ func c16Run(x *engine.X) {
 		schema := parquet.SchemaOf(ARow{})
 		var prs []parquet.Row
 		for i := range mine {
-			prs = append(prs, schema.Deconstruct(nil, &mine[i]))
+			prs = append(prs, c16RowOf(mine[i]))
 		}
 		more := c16Rows(50, 6)
 		var mprs []parquet.Row
 		for i := range more {
-			mprs = append(mprs, schema.Deconstruct(nil, &more[i]))
+			mprs = append(mprs, c16RowOf(more[i]))
 		}
 		var sink bytes.Buffer
 		// snapshots are taken BEFORE the rows are handed to the library
@@ -583,7 +613,7 @@ func init() {
 	Register(&engine.Prop{
 		ID:    "C16",
 		Level: "exploration",
-		Rule: "21 hand-over kinds (Read[T]; GenericReader.Read into a reused batch with shallow copies retained; Rows.ReadRows uncloned and cloned; async Reader.ReadRows cloned; page Values cloned; caller rows passed to GenericWriter.Write / Writer.WriteRows / RowBuffer.WriteRows / SortingWriter.WriteRows / GenericBuffer.Write+sort / FilterRowWriter.WriteRows; reads after a SeekToRow that lands inside a page; reads after a Reset whose batch spans several pages; rows read from a GenericBuffer / RowBuffer row group which is then reset and refilled; rows handed over after a seek or a Reset must also BE the rows written) x 5 file shapes (plain/dict/delta, v1/v2, snappy, 2 row groups; strings, bytes, uuid, a fixed-size column read into a []byte, lists, optional, map, dictionary column, several pages) x ALL sequences of <=2 (3 thorough) disturbing operations from {read more into the same batch, SeekToRow(0)+read, Reset, Close, read another file, write another file, GC}; run with poison-on-release and always-reuse pools; a deep snapshot taken at hand-over must equal the held values after every step; " +
+		Rule: "21 hand-over kinds (Read[T]; GenericReader.Read into a reused batch with shallow copies retained; Rows.ReadRows uncloned and cloned; async Reader.ReadRows cloned; page Values cloned; caller rows passed to GenericWriter.Write / Writer.WriteRows / RowBuffer.WriteRows / SortingWriter.WriteRows / GenericBuffer.Write+sort / FilterRowWriter.WriteRows; reads after a SeekToRow that lands inside a page; reads after a Reset whose batch spans several pages; rows read from a GenericBuffer / RowBuffer row group which is then reset and refilled; rows handed over after a seek or a Reset must also BE the rows written) x 5 file shapes (plain/dict/delta, v1/v2, snappy, 2 row groups; strings, bytes, uuid, a fixed-size column read into a []byte, an INT96 column, JSON columns holding a struct (slice, map, pointer) and a slice, lists, optional, map, dictionary column, several pages) x ALL sequences of <=2 (3 thorough) disturbing operations from {read more into the same batch, SeekToRow(0)+read, Reset, Close, read another file, write another file, GC}; run with poison-on-release and always-reuse pools; a deep snapshot taken at hand-over must equal the held values after every step; " +
 			"non-trivial = at least one disturbing operation",
 		Assumptions: []string{
 			"uncloned parquet Rows are only compared until the next call on the reader they came from",
